@@ -433,7 +433,10 @@ class FieldStorage:
         if has_read > max_read:
             raise BodySizeError('Max in-memory read limit exceed')
         src.seek(start)
-        headers_raw = src.read(sz).decode()
+        try:
+            headers_raw = src.read(sz).decode()
+        except UnicodeDecodeError:
+            raise BodyParsingError('Malformed multipart/formdata, part headers are not UTF-8')
         for header_raw in headers_raw.splitlines():
             header = self.parse_header(header_raw)
             self.headers[header.name] = header
@@ -456,7 +459,10 @@ class FieldStorage:
                 if has_read > max_read:
                     raise BodySizeError('Max in-memory read limit exceed')
                 src.seek(start)
-                self.value = src.read(sz).decode()
+                try:
+                    self.value = src.read(sz).decode()
+                except UnicodeDecodeError:
+                    raise BodyParsingError(f'Malformed multipart/formdata, value of field `{self.name}` is not UTF-8')
             else:
                 self.value = ''
         return has_read
